@@ -75,6 +75,8 @@ def install(reg):
         return VInt(days.t * 86400)
 
     E["datetime.timedelta"] = VNative(timedelta, "datetime.timedelta")
+    from ..values import VOpaque, usort
+    E["datetime.timezone.utc"] = lambda it: VOpaque(z3.Const("timezone.utc", usort("TZ")), "TZ")
     class CIMultiDictModel:
         """multidict.CIMultiDict built from a concrete list of (name, value) pairs: lookups are
         case-insensitive and '-' / '_' are different characters (ASSUMED, conformance-checked)."""
